@@ -484,3 +484,78 @@ func init() {
 		return VTuple{[]Val{r, VMap{ID: ex.decls.fresh("pmt_params", SInt), Typ: tup.At(1).Type(), Unknown: true}, VIface{ID: ex.decls.fresh("pmt_err", SInt)}}}
 	}
 }
+
+// ---------------------------------------------------------------------------
+// encoding/xml (C12). Contract of (*Decoder).RawToken written from the package documentation:
+// for input that starts with an XML declaration <?xml ... ?> it returns the processing
+// instruction, unless the declaration names an encoding other than UTF-8 and
+// Decoder.CharsetReader is nil, in which case it returns an error.
+
+func init() {
+	models["bytes.NewReader"] = func(f *frame, st *State, ins *ssa.Call, a []Val) Val {
+		id := f.ex.decls.fresh("bytesReader", SInt)
+		st.assume(tLt("0", id))
+		if s, ok := a[0].(VSlice); ok {
+			st.ghost["src:"+id] = s
+		}
+		return VOpaque{id, ins.Type()}
+	}
+	models["encoding/xml.NewDecoder"] = func(f *frame, st *State, ins *ssa.Call, a []Val) Val {
+		ex := f.ex
+		res := ex.freshVal(st, "xmlDecoder", ins.Type(), false)
+		r, ok := res.(VRef)
+		if !ok {
+			return res
+		}
+		st.assume(tEq(r.T, tAdd(ex.frontierOf(st), "1")))
+		st.assume(tLt(ex.heapTop(), r.T))
+		st.frontier = r.T
+		// a new decoder has no CharsetReader
+		u := r.St.Underlying().(*types.Struct)
+		for i := 0; i < u.NumFields(); i++ {
+			if u.Field(i).Name() == "CharsetReader" {
+				ex.heapStore(st, r.St, i, r.T, VFunc{ID: "0"})
+			}
+		}
+		if rd, ok := a[0].(VIface); ok {
+			if op, ok := rd.V.(VOpaque); ok {
+				if s, ok := st.ghost["src:"+op.T]; ok {
+					st.ghost["src:"+r.T] = s
+				}
+			}
+		}
+		return r
+	}
+	models["(*encoding/xml.Decoder).RawToken"] = func(f *frame, st *State, ins *ssa.Call, a []Val) Val {
+		ex := f.ex
+		tokID := ex.decls.fresh("xmlTok", SInt)
+		err := ex.decls.fresh("xmlErr", SInt)
+		st.assume(tLe("0", err))
+		out := VTuple{[]Val{VIface{ID: tokID}, VIface{ID: err}}}
+		dec, ok := a[0].(VRef)
+		if !ok {
+			return out
+		}
+		src, ok := st.ghost["src:"+dec.T].(VSlice)
+		if !ok {
+			return out
+		}
+		ms := st.mem[src.R][0]
+		hasDecl := app(ex.decls.fun("xmlHasDecl", []string{SBytes, SInt, SInt}, SBool), ms, src.Off, src.Len)
+		encUTF8 := app(ex.decls.fun("xmlDeclIsUTF8", []string{SBytes, SInt, SInt}, SBool), ms, src.Off, src.Len)
+		cr := T("0")
+		u := dec.St.Underlying().(*types.Struct)
+		for i := 0; i < u.NumFields(); i++ {
+			if u.Field(i).Name() == "CharsetReader" {
+				if fv, ok := ex.heapLoad(st, dec.St, i, dec.T).(VFunc); ok {
+					cr = fv.ID
+				}
+			}
+		}
+		st.assume(tImp(tAnd(hasDecl, tOr(encUTF8, tNe(cr, "0"))), tEq(err, "0")))
+		st.assume(tImp(tAnd(hasDecl, tNot(encUTF8), tEq(cr, "0")), tNe(err, "0")))
+		st.ghost["xml_src"] = src
+		st.ghost["xml_err"] = VInt{err}
+		return out
+	}
+}
